@@ -841,6 +841,47 @@ theorem stale_start_old_vs_new :
     (pyRunC wVars ⟨⟨wData, []⟩, wStale⟩ [.set 0 (.const 1)]).toOption.map (fun c => c.st.data) = some (wData.set 26 1) := by
   decide
 
+/-! #### invariance under restart
+
+The same group object may be started again after its terminals were configured differently (`SyncGroup.start`
+allocates anew), any number of times, each earlier start under any layout, with any statements or Python reads, ended
+normally or by an exception.  Nothing of that reaches the present cycle. -/
+
+/-- whatever history of earlier starts the objects went through, the present cycle is the cycle of fresh objects -/
+theorem restart_invariant (hist : List Earlier) (caches0 : List PvCache) (vars : List Linked) (ops : List Op)
+    (py py' : PyState) (h : pyRun vars py ops = some py') :
+    ∃ caches', pyRunC vars ⟨py, historyCaches caches0 hist⟩ ops = .ok ⟨py', caches'⟩ :=
+  runC_of_run vars ops (historyCaches caches0 hist) py py' h
+
+/-- … and agrees with the generated program of the present layout -/
+theorem restart_agree (hdr : List UInt8) (hh : hdr.length = ETHERNET_HEADER) (hist : List Earlier) (caches0 : List PvCache)
+    (vars : List Linked) (ops : List Op) (py py' : PyState) (pr : ProgState)
+    (hR : Rel hdr py pr) (hB : InBounds vars py.data.length) (hF : RunFits (pr.dvs.map (·.1)) vars py ops)
+    (h : pyRun vars py ops = some py') :
+    ∃ caches' pr', pyRunC vars ⟨py, historyCaches caches0 hist⟩ ops = .ok ⟨py', caches'⟩ ∧ progRun vars pr ops = some pr' ∧
+      pr'.frame = hdr ++ py'.data ∧ pr'.dvs.map (fun m => pyGet m.1 m.2 0) = py'.dvs :=
+  run_agree_full hdr hh vars ops py py' pr (historyCaches caches0 hist) hR hB hF h
+
+/-- Python reads after any history see the variable's own bytes/bit at the present start -/
+theorem restart_read (hist : List Earlier) (caches0 : List PvCache) (vars : List Linked) (i : Nat)
+    (l : Linked) (s : Nat) (hl : vars[i]? = some l) (hs : start l.assign l.var = some s) :
+    ∃ caches', getterStart bindNew vars (historyCaches caches0 hist) i = .ok (l, s, caches') := by
+  obtain ⟨c, h⟩ := getter_ok vars (historyCaches caches0 hist) i l s hl hs
+  exact ⟨c, h⟩
+
+/-- non-vacuity, and the restart that a cache keyed on the *identity* of the group (kept across `allocate`) gets wrong:
+the output region moved from 30 to 26 between two starts of device 0's group; the present path writes byte 26, a
+closure that survives (`bindOld`, same device) writes byte 30 -/
+def wEarlier : Earlier := { vars := [⟨⟨.out, 0, .fmt .B⟩, ⟨none, some 30⟩, 0, 0⟩], st := ⟨wData, []⟩, ops := [.set 0 (.const 1)] }
+
+theorem restart_witness :
+    historyCaches [PvCache.empty] [wEarlier] = wStale ∧
+    (pyRunC wVars ⟨⟨wData, []⟩, historyCaches [PvCache.empty] [wEarlier]⟩ [.set 0 (.const 1)]).toOption.map (fun c => c.st.data)
+      = some (wData.set 26 1) ∧
+    (pyRunCOld wVars ⟨⟨wData, []⟩, historyCaches [PvCache.empty] [wEarlier]⟩ [.set 0 (.const 1)]).toOption.map (fun c => c.st.data)
+      = some (wData.set 30 1) := by
+  decide
+
 /-- two devices linked to one `PacketVar` object, both reading it -/
 def wShared : List Linked := [⟨⟨.out, 0, .fmt .B⟩, ⟨none, some 26⟩, 0, 0⟩, ⟨⟨.out, 0, .fmt .B⟩, ⟨none, some 26⟩, 0, 1⟩]
 
